@@ -28,6 +28,10 @@ def conditions(tier, seed):
             out.append(Cond('join_%s_types_%s' % (sch, tc), 'c03_join.py', dict(schema=sch, nb=2, typecase=tc, shard=(seed if tier == 'quick' else 0) % 4, nshards=4 if tier == 'quick' else 1), timeout=t,
                             bound='schema %s with the type names written in %s case: every assignment of pool key values (null ids, empty strings) to 2 referred and 2 referring rows%s' % (sch, tc, ' (one seed-rotated quarter)' if tier == 'quick' else ''),
                             case_split=['ci (key assignment)'], realised=['model text'], twin=False))
+    for sch in ('int_coll', 'uid_coll', 'real_coll', 'str_coll'):
+        out.append(Cond('join_%s' % sch, 'c03_join.py', dict(schema=sch, nb=2), timeout=t,
+                        bound='single key whose pool holds DIFFERENT values with EQUAL Python hashes (-1 / -2, 0 / 2**61-1, 1 / 2**61, -1.0 / -2.0) or equal up to case / blanks: every assignment to 2 referred and 2 referring rows',
+                        case_split=['ci (key assignment)'], realised=['model text'], twin=False))
     out.append(Cond('join_two_identifiers', 'c03_join.py', dict(schema='uid'), func='check_two_ids', timeout=t,
                     bound='two associations from different classes into the same class through two different identifiers, referential attributes named alike; every key assignment, both statement orders',
                     case_split=['ci'], realised=['model text']))
